@@ -156,7 +156,7 @@ impl Loads {
     pub fn new(quick: bool) -> Self {
         Loads {
             max_exhaustive: if quick { 3 } else { 4 },
-            random: if quick { 4000 } else { 2_000_000 },
+            random: if quick { 30_000 } else { 2_000_000 },
         }
     }
     fn n_exh(&self) -> u64 {
